@@ -306,6 +306,23 @@ fn run(ctx: &RunCtx) -> Report {
             report.violate("rule-table", "first-call-result-not-storers-verdict", format!("expected {storers_result:?} for the first call; {what}"));
         }
     }
+    // "supersedes the in-flight write" / "both calls succeed": a call that returned Ok has had its
+    // own item sent to the storers
+    if report.violation.is_none() {
+        let sent: Vec<(i64, Vec<u8>)> = sim.with_trace(|tr| {
+            tr.iter()
+                .filter(|d| d.from_host == Some(writer) && d.t_send >= t0)
+                .filter_map(|d| Krpc::parse(&d.bytes))
+                .filter(|k| k.query_name() == Some("put") && k.target() == Some(target))
+                .map(|k| (k.int_field("seq").unwrap_or(-1), k.bytes_field("v").map(|v| v.to_vec()).unwrap_or_default()))
+                .collect()
+        });
+        if r2 == Res::Ok && !sent.iter().any(|(s, v)| *s == s2 && v.as_slice() == v2) {
+            report.violate("rule-table", "second-call-ok-but-its-item-never-sent", format!("the second call returned Ok but no store request carried its item (seq {s2}); {what}"));
+        } else if r1 == Res::Ok && !(in_flight && relation >= 2 && cas_kind == 1) && !ambiguous && !sent.iter().any(|(s, v)| *s == s1 && v.as_slice() == b"first value") {
+            report.violate("rule-table", "first-call-ok-but-its-item-never-sent", format!("the first call returned Ok but no store request carried its item (seq {s1}); {what}"));
+        }
+    }
     report.fingerprint = crate::rng::key(sim.order_fingerprint(), &[relation, cas_kind, family, in_flight as u64]);
     report.sample = Some(json!({"scenario": what}));
     report.plan_dump = Some(what);
